@@ -82,6 +82,10 @@ CLAIMED = {
             "Theorems C15_clean_streams/C15_client/C15_server/C15_trim_identity/C15_deadline/C15_ok_is_login hold for every callsign and password without CR, every payload, every banner/garbage script and every arrival schedule of the model. The tie: 60 (500) logins each of library client vs library server, library client vs scripted server (split prompts, coalesced payload, everything in one write) and library server vs scripted client compared with the model and judged by the property; 12 (60) dials against silent / half-prompt / garbage / closing servers timed against their limit.",
             "PARTIAL for the deadline: that a blocked read ends at the connection's deadline is the Go net package's behaviour (observed, +400 ms tolerance), the theorem covers the decision logic only. Two fix: commits (buffered bytes lost after login; login ignored the context) precede this check; known finding: a callsign with outer white space is reported trimmed. Unicode lower-casing of prompt lines is modelled for ASCII only.",
             "DESIGN.md section 6 C15"),
+    "C17": ("Coq proof that every interleaving of transfer loop and reporter yields a report sequence accepted by an independent judge (extracted and used as the live judge of the real sessions' reports) + Go race detector on a -race build of the harness over paced sessions",
+            "Theorems C17_send_reports/C17_recv_reports/C17_judge hold for every event interleaving, transmit-buffer length and message size of the model, whose only shared state is the one counter the code shares after the fix: commit. PARTIAL: absence of data races is a property of the Go memory model that this development cannot state; it is decided per run by the race detector over 20 (120) paced session pairs (block delays 0..300 ms, with and without a transmit-buffer-reporting transport), i.e. dynamically on sampled schedules.",
+            "One fix: commit (reporter goroutines read bytes.Buffer.Len of the buffers being drained/filled; the Done report was delivered after the transfer function had returned) precedes this check. The race detector, the Go scheduler and the -race runtime are in the trusted base of the race half.",
+            "DESIGN.md section 6 C17"),
 }
 
 NOT_YET = {}
